@@ -68,6 +68,10 @@ func newEnvX(name string, tx bool, tweak func(cfg *fosite.Config), extra []compo
 	}})
 	fs.Users["peter"] = storage.MemoryUserRelation{Username: "peter", Password: "pw-peter"}
 	w.Store = fs.MemoryStore
+	zz.Note("C18 store under test: harness FaultStore around the real MemoryStore; the call whose running index equals the symbolic fault index fails with a kind chosen among generic / ErrNotFound / ErrInactiveToken / ErrSerializationFailure")
+	zz.Note("C18 kinds: 'not found'/'inactive' are not injected at calls whose contract makes them regular answers acted upon by the handler (GetPKCERequestSession, GetOpenIDConnectSession, GetAccessTokenSession, GetRefreshTokenSession in the revocation lookup, Revoke* 'not found' everywhere and 'inactive' in the revocation handler); 'inactive' on GetRefreshTokenSession is returned together with the record as the contract demands")
+	zz.Note("C18 TxFaultStore: BeginTX snapshots all code/token tables, Rollback restores them (also when its acknowledgement is the injected failure), a failed Commit leaves the transaction open with its writes visible; the transaction handle travels in the context")
+	zz.Note("C18 fail-closed clauses only (no state equality, no successful retry demanded): store without transactions, faults outside the issuing transaction, handlers that never begin a transaction (password, client credentials, revocation, PAR, authorization endpoint)")
 	e := &env{name: name, tx: tx, fs: fs, w: w}
 	if tx {
 		e.name += "/tx"
@@ -178,7 +182,7 @@ func (e *env) afterFault(pre *Snap, resp fosite.AccessResponder, err error, toke
 	if e.tx {
 		why := TraceOK(e.fs.Trace)
 		zz.Observe("trace.verdict", why)
-		zz.Assert(why == "", e.name+": begin is matched by exactly one commit or rollback, never a commit after a failed write")
+		zz.Assert(why == "", e.name+": transaction trace well-formed: one terminal per begin, no commit after a failed write, calls carry the transaction context")
 	} else {
 		zz.Assert(len(e.fs.Trace) == 0, e.name+": a store without transactions sees no begin/commit/rollback")
 	}
